@@ -121,4 +121,15 @@ def fromDnaOnlyString (cs : List Nat) : List (List Nat) :=
   let (runs, cur) := cs.foldl step ([], [])
   (if cur.isEmpty then runs else cur.reverse :: runs).reverse
 
+/-- one base of `from_acgt_bytes_hashn`: the inline match, the hashed arm for every other byte -/
+def hashnBase (h : Nat → Nat) (cp : Nat × Nat) : Nat :=
+  match Gen.hashnArms.getD cp.1 255 with
+  | 255 => h cp.2 % 4
+  | b => b
+
+/-- `from_acgt_bytes_hashn(bytes, read_name)`: the hasher seeded with the read name is a parameter
+    `h : position → u64` (`DefaultHasher` is outside the model); every base is pushed -/
+def fromAcgtBytesHashn (bytes : List Nat) (h : Nat → Nat) : Option DnaStr.T :=
+  bytes.zipIdx.foldl (fun acc (cp : Nat × Nat) => acc.bind fun d => DnaStr.push d (hashnBase h cp)) (some DnaStr.new)
+
 end Avx2
